@@ -25,7 +25,7 @@ func init() {
 			"known fixed-length meta events are generated with their spec length (tempo 3 bytes non-zero, etc.)",
 			"header length is 6 (statement)",
 		},
-		Require: []string{"files", "feat:running_status", "feat:padded_vlq", "feat:f0_without_f7", "feat:f7_packet", "feat:unknown_meta", "feat:long_payload", "feat:alien_before", "feat:alien_between", "feat:alien_after", "feat:smpte", "decoder_crosschecks", "events_compared", "messages_classified", "pipe_reads", "reads_with_log_option"},
+		Require: []string{"reads_with_eof_delivered_with_data", "files", "feat:running_status", "feat:padded_vlq", "feat:f0_without_f7", "feat:f7_packet", "feat:unknown_meta", "feat:long_payload", "feat:alien_before", "feat:alien_between", "feat:alien_after", "feat:smpte", "decoder_crosschecks", "events_compared", "messages_classified", "pipe_reads", "reads_with_log_option"},
 		Run:     runC02,
 	})
 }
@@ -106,6 +106,24 @@ func c02Check(c *mon.Ctx, f *ref.EncFile, label string) {
 				c.Violation("read-error-log", fmt.Sprintf("ReadFrom with the Log option rejects a spec-valid file (%s): %v", label, lerr), in, "value", lerr.Error())
 			} else if diff := ref.EqualFiles(truth, fromLib(sl)); diff != "" {
 				c.Violation("content-log", "ReadFrom with the Log option differs from the specification decoder: "+diff, in, nil, nil)
+			}
+		}
+	}
+	// sources that hand out their last bytes together with io.EOF (as decompressors, HTTP bodies with a known
+	// length and iotest.DataErrReader do): every second file is read that way once more
+	if len(b)%2 == 0 {
+		var se *smf.SMF
+		var eerr error
+		src := &chunkReader{b: b, eofWithLast: true}
+		if len(b)%4 == 0 {
+			src.chunks = []int{len(b) - 1, 1} // the very last byte comes alone, together with EOF
+		}
+		if !c.Guard("panic:ReadFrom(eager EOF)", in, func() { se, eerr = smf.ReadFrom(src) }) {
+			c.Count("reads_with_eof_delivered_with_data", 1)
+			if eerr != nil {
+				c.Violation("read-error-eager-eof", fmt.Sprintf("ReadFrom rejects a spec-valid file (%s) when the source returns its last bytes together with io.EOF: %v", label, eerr), in, "value", eerr.Error())
+			} else if diff := ref.EqualFiles(truth, fromLib(se)); diff != "" {
+				c.Violation("content-eager-eof", "ReadFrom differs from the specification decoder when the source returns its last bytes together with io.EOF: "+diff, in, nil, nil)
 			}
 		}
 	}
